@@ -134,7 +134,7 @@ fn must_reject_text(src: &str) -> Option<&'static str> {
 }
 
 /// cap bracket nesting at 32 by blanking the openers that would exceed it (keeps the case inside the quantifier)
-fn cap_nesting(src: &str) -> String {
+pub fn cap_nesting(src: &str) -> String {
     let mut d = 0usize;
     src.chars()
         .map(|c| match c {
